@@ -66,7 +66,7 @@ def run():
     bad = [dict(r) for r in recs]
     bad[10]['out'] += 'x'
     r2, p2 = judge(ck, bad)
-    if p2 is None or {p.get('example') for p in p2} != {bad[10]['example']}:
+    if p2 is None or {p.get('example') for p in p2} != rejected | {bad[10]['example']}:
         raise core.MachineryError('binding self-test: corrupted corpus record not rejected')
     r3, p3 = judge(ck, recs[:-1])
     if p3 is not None:
